@@ -192,6 +192,10 @@ func refSendBody(sc Scn, src, dst fsmodel.Tree, destDir string, res *RefSendRes)
 		go func() {
 			vrt.Gate("start peerS.reader", nil)
 			defer func() { readDone = true }()
+			if sc.Variant == "seq" {
+				// a single-threaded sender: it announces everything first and only then reads what was requested
+				vrt.Gate("peerS.reader waits for the listing", func() bool { return statDone || senderGone || res.RecvDone })
+			}
 			for {
 				var p types.Packet
 				if err := sEnd.RecvMsg(&p); err != nil {
@@ -475,6 +479,22 @@ func driveC07(p *Pool, r *evid.Run) {
 	for _, pref := range []string{"a", "d", "e", "p"} {
 		for _, pol := range pols {
 			scns = append(scns, Scn{Kind: "refsend", Src: "c7plain2", Dst: "empty", Cap: 2, Policy: pol, Variant: "filter:" + pref, SelectAlts: true})
+		}
+	}
+	// a sender that reads requests only after it has sent the whole listing (nothing obliges it to read earlier)
+	for _, dst := range []string{"empty", "c7diff"} {
+		for _, pol := range pols {
+			for _, cp := range []int{1, 2} {
+				scns = append(scns, Scn{Kind: "refsend", Src: "c7tiny", Dst: dst, Cap: cp, Policy: pol, Variant: "seq", SelectAlts: true})
+			}
+		}
+	}
+	// zero runs in the content x chunk sizes around a page
+	for _, dst := range []string{"empty", "c7zeros-old"} {
+		for _, ch := range [][]int{nil, {4096}, {49152}, {1 << 20}, {4095, 4097}} {
+			for _, pol := range []string{"run", "recv"} {
+				scns = append(scns, Scn{Kind: "refsend", Src: "c7zeros", Dst: dst, Cap: 64, Policy: pol, Chunk: ch, SelectAlts: true})
+			}
 		}
 	}
 	bound := 1
